@@ -35,6 +35,7 @@ def build(a, memo=None, pool=()):
     if memo is None: memo = []
     t = a[0]
     if t == "i": return a[1]
+    if t == "b": return bool(a[1])                      # a Python bool argument (True/False)
     if t == "f": return float(Fraction(a[1], 2 ** a[2]))
     if t == "ref": return memo[a[1]]
     if t == "g": return pool[a[1]]
@@ -207,6 +208,7 @@ def build_struct(t, secret_ok, memo=None):
     if t.startswith("@"): return memo[int(t[1:])]
     k = t.split(":")
     if k[0] == "i": return int(k[1])
+    if k[0] == "b": return bool(int(k[1]))
     if k[0] == "f": return float(Fraction(int(k[1]), 2 ** int(k[2])))
     if k[0] == "L": return PrivVal(int(k[1]))
     if k[0] == "B": return PrivValBool(int(k[1]))
